@@ -57,6 +57,32 @@ theorem link_insert_refines_list (targets : List Nat) (hn : targets.Nodup) (u : 
     r = pyInsert targets i x :=
   linkInsert_spec' targets hn u i x r h
 
+/-- Clearing (or re-assigning) one link-element relation leaves every sibling relation alone, also when
+both store their link elements under the same XML tag and are told apart by `xsi:type` only
+(`FunctionalChain.involved_links` / `involved_functions`). -/
+theorem link_clear_spares_siblings (tag tag' : Option String) (xts xts' : List String)
+    (kids : List LinkKid) (hdis : ∀ x ∈ xts', x ∉ xts) :
+    linkTargets tag' xts' (linkClear tag xts kids) = linkTargets tag' xts' kids ∧
+    linkTargets tag xts (linkClear tag xts kids) = [] := by
+  constructor
+  · unfold linkTargets linkClear
+    rw [List.filter_filter]
+    congr 1
+    apply List.filter_congr
+    intro k _
+    by_cases h : isRef tag' xts' k = true
+    · have hx : k.xt ∈ xts' := by
+        simp only [isRef, Bool.and_eq_true, List.contains_iff_mem] at h
+        exact h.2
+      have : isRef tag xts k = false := by
+        simp only [isRef, Bool.and_eq_false_iff, List.contains_eq_mem, decide_eq_false_iff_not]
+        exact Or.inr (hdis _ hx)
+      simp [h, this]
+    · simp [h]
+  · unfold linkTargets linkClear
+    rw [List.filter_filter]
+    simp
+
 /-- Uniqueness-enforcing link lists reject a member that is already present (and, being a pure
 rejection, change nothing). -/
 theorem unique_rejects_duplicate (targets : List Nat) (i : Int) (x : Nat) (hx : x ∈ targets) :
